@@ -18,7 +18,7 @@ import (
 )
 
 // ---------------------------------------------------------------------------------------------
-// state KV owned by the harness (so that the WHOLE real state can be enumerated and snapshotted)
+// state KV owned by the harness (so that the WHOLE real state can be enumerated; every write is logged)
 
 type write struct {
 	key      string
